@@ -545,7 +545,80 @@ def rule_g(chk: Check, eng: Engine) -> None:
         raise AnalysisError(f"only {n} Grammar.parse/fuzz call sites found in the search, API and repair code")
 
 
+def surgery_bracket_rule(chk: Check, eng: Engine, rule: str) -> None:
+    """R01-h.  The repair of a computed repetition empties the live parent node (`tree.set_children([])`), fuzzes the missing rounds into it and
+    then puts the children back - a save/restore bracket around in-place surgery on a tree of the population.  The bracket is not protected by
+    try/finally; that is sound only as long as an exception raised inside it ends the run.  If any caller up the chain catches the exception
+    and carries on, the mutilated individual stays in the population (and may be emitted: with its rounds gone the bound constraint is vacuous)."""
+    cg = eng.cg
+    brackets = []
+    for f in eng.ix.all_functions:
+        if not f.module.startswith(("fandango.constraints", "fandango.evolution", "fandango.language.tree")):
+            continue
+        saves = {}
+        for a in walk_local(f.node):
+            if isinstance(a, ast.Assign) and isinstance(a.value, ast.Attribute) and a.value.attr in ("children", "_children") and isinstance(a.targets[0], ast.Name):
+                saves[a.targets[0].id] = norm(a.value.value)
+        empties = [c for c in walk_local(f.node) if isinstance(c, ast.Call) and call_name(c) == "set_children" and c.args and isinstance(c.args[0], ast.List) and not c.args[0].elts
+                   and isinstance(c.func, ast.Attribute)]
+        for e in empties:
+            recv = norm(e.func.value)
+            restores = [c for c in walk_local(f.node) if isinstance(c, ast.Call) and call_name(c) == "set_children" and c.args and isinstance(c.args[0], ast.Name)
+                        and saves.get(c.args[0].id) == recv and isinstance(c.func, ast.Attribute) and norm(c.func.value) == recv and c.lineno > e.lineno]
+            if restores:
+                brackets.append((f, e, restores[0]))
+    if not brackets:
+        raise AnalysisError("no save/restore bracket around in-place tree surgery found (RepetitionBoundsSuggestion._insert_repetitions was the confirmed instance)")
+    from ..core import parents_map, ancestors
+    for f, e, r in brackets:
+        pm = parents_map(f.node)
+        in_finally = any(isinstance(a, ast.Try) and any(r is x or any(r is y for y in ast.walk(x)) for x in a.finalbody) for a in ancestors(pm, r))
+        if in_finally:
+            chk.ok(rule, f.fq, e.lineno, f"the bracket `{short(e, 40)}` ... `{short(r, 40)}` restores in a finally block")
+            continue
+        # walk up the callers: any catch-and-continue handler around a call on the chain?
+        seen = {f.fq}
+        frontier = [(f.fq, [f.qualname])]
+        offender = None
+        depth = 0
+        while frontier and offender is None and depth < 6:
+            depth += 1
+            nxt = []
+            for fq, chain in frontier:
+                for caller_fq in sorted(cg.callers_of(fq)):
+                    caller = cg.funcs.get(caller_fq)
+                    if caller is None or not caller.module.startswith(("fandango.constraints", "fandango.evolution", "fandango.api")):
+                        continue
+                    cpm = parents_map(caller.node)
+                    for call, targets, _how in cg.sites.get(caller_fq, []):
+                        if fq not in targets:
+                            continue
+                        for a in ancestors(cpm, call):
+                            if isinstance(a, ast.Try) and any(call is x for b in a.body for x in ast.walk(b)):
+                                for h in a.handlers:
+                                    catches = h.type is None or any(n_ in norm(h.type) for n_ in ("Exception", "BaseException"))
+                                    # does the handler end by raising on every path?  (last statement a bare/explicit raise)
+                                    always_raises = bool(h.body) and isinstance(h.body[-1], ast.Raise) and not any(isinstance(x, (ast.Return, ast.Continue, ast.Break)) for x in ast.walk(h))
+                                    if catches and not always_raises:
+                                        offender = (caller, h, chain + [caller.qualname])
+                    if caller_fq not in seen:
+                        seen.add(caller_fq)
+                        nxt.append((caller_fq, chain + [caller.qualname]))
+            frontier = nxt
+        if offender is None:
+            chk.ok(rule, f.fq, e.lineno, f"the unprotected bracket `{short(e, 40)}` ... `{short(r, 40)}`: no caller within {depth} levels ({len(seen)} functions) catches an exception and carries on")
+        else:
+            caller, h, chain = offender
+            chk.bad(rule, eng.relfile(caller), h.lineno, caller.fq, f"`except {short(h.type, 30) if h.type is not None else ''}` in {caller.qualname} swallows exceptions raised inside the unprotected surgery bracket of "
+                    f"{f.qualname} (`{short(e, 40)}` ... `{short(r, 40)}`)",
+                    "an exception between emptying the live node and restoring it (a generator that raises while the missing rounds are fuzzed) leaves a mutilated individual in the "
+                    "population; with its repetition rounds gone the bound constraint is vacuously satisfied and the tree can be emitted",
+                    path=list(reversed(chain)), keyparts=f"bracket-swallowed|{caller.qualname}")
+
+
 def run(chk: Check, eng: Engine) -> None:
+    chk.rule("R01-h", "in-place surgery on a live tree is bracketed exception-safely, or no caller swallows exceptions raised inside the bracket", floor=1)
+    surgery_bracket_rule(chk, eng, "R01-h")
     chk.rule("R01-g", "no parse / fuzz issued by the search, the API or the repair relies on the default start symbol", floor=4)
     rule_g(chk, eng)
     chk.rule("R01-f", "readers of the repetition tags enumerate the same nodes the writers tag (no filter by symbol kind on one side only)", floor=4)
@@ -577,6 +650,8 @@ _N = "src/fandango/language/grammar/nodes/node.py"
 _CMP = "src/fandango/constraints/comparison.py"
 _CX = "src/fandango/evolution/crossover.py"
 MUTANTS = [
+    M("repair-errors-swallowed", "src/fandango/evolution/population.py", "            suggested_replacements = suggestion.get_replacements(\n                individual, self._grammar\n            )\n",
+      "            try:\n                suggested_replacements = suggestion.get_replacements(\n                    individual, self._grammar\n                )\n            except Exception as e:\n                LOGGER.warning(f\"no repair: {e}\")\n                return individual, fixes_made\n", "R01-h"),
     M("guard-checks-the-replacements-flag", "src/fandango/language/tree.py", "        if (\n            current_path in path_to_replacement\n            and self.symbol == path_to_replacement[current_path].symbol\n            and not self.read_only\n        ):\n            new_subtree = path_to_replacement[current_path].deepcopy(\n", "        replacement = path_to_replacement.get(current_path)\n        if (\n            replacement is not None\n            and replacement.symbol == self.symbol\n            and not replacement.read_only\n        ):\n            new_subtree = replacement.deepcopy(\n", "R01-a"),
     M("initial-population-default-start", "src/fandango/evolution/algorithm.py", "                tree = self.grammar.parse(individual, start=self.start_symbol)\n", "                tree = self.grammar.parse(individual)\n", "R01-g"),
     M("api-parse-default-start", "src/fandango/api.py", "            word, mode=mode, start=self._start_symbol, **settings\n", "            word, mode=mode, **settings\n", "R01-g"),
